@@ -290,69 +290,84 @@ def rule_R5(body, log):
 
 def rule_R4(body, log):
     """`RECV.modify(|tables| BODY)` in tail position -> `{ RECV.modify_begin()?; let tables = RECV.tables_mut(); BODY }`
-    (`modify_continue` -> `modify_continue_begin`: the method name is kept, the two shells differ in whether a commit may happen)"""
-    toks = tokenize(body)
-    n = len(toks)
-    assert toks[0][1] == '{'
-    end = match_close(toks, 0)
-    # find `.modify(`
-    idx = None
-    for i in range(n):
-        if toks[i][0] == 'id' and toks[i][1] in ('modify', 'modify_continue'):
-            p = nontrivia(toks, i, -1)
-            q = nontrivia(toks, i)
-            if toks[p][1] == '.' and toks[q][1] == '(':
-                if idx is not None:
-                    raise Undecided('R4: more than one .modify( call')
-                idx = i
-    if idx is None:
-        raise Undecided('R4: no .modify( call found')
-    meth = toks[idx][1]
-    dot = nontrivia(toks, idx, -1)
-    par = nontrivia(toks, idx)
-    par_close = match_close(toks, par)
-    # tail position: after par_close only trivia up to the fn body's closing brace
-    after = nontrivia(toks, par_close)
-    if after != end:
-        raise Undecided('R4: .modify(..) is not in tail position')
-    # receiver: tokens back from dot to statement start (previous ';' or '{' or '}' at depth 0)
-    r = dot - 1
-    depth = 0
-    while r > 0:
-        k, t = toks[r][0], toks[r][1]
-        if k == 'p' and t == '}' and depth == 0:
-            break
-        if k == 'p' and t in CLOSE:
-            depth += 1
-        elif k == 'p' and t in OPEN:
-            if depth == 0:
+    (`modify_continue` -> `modify_continue_begin`: the method name is kept, the two shells differ in whether a commit may happen).
+    A non-tail call that is a whole statement `RECV.modify(|tables| BODY)?;` becomes
+    `{ RECV.modify_begin()?; let tables = RECV.tables_mut(); let __rK: Result<()> = BODY; __rK?; }`: a `?` inside BODY then leaves the
+    function instead of the closure, which is what the trailing `?` of the statement did with the closure's error."""
+    done = 0
+    for _round in range(8):
+        toks = tokenize(body)
+        n = len(toks)
+        assert toks[0][1] == '{'
+        end = match_close(toks, 0)
+        calls = []
+        for i in range(n):
+            if toks[i][0] == 'id' and toks[i][1] in ('modify', 'modify_continue'):
+                p = nontrivia(toks, i, -1)
+                q = nontrivia(toks, i)
+                if toks[p][1] == '.' and toks[q][1] == '(':
+                    calls.append(i)
+        if not calls:
+            if done == 0:
+                raise Undecided('R4: no .modify( call found')
+            return body
+        idx = calls[-1]
+        meth = toks[idx][1]
+        dot = nontrivia(toks, idx, -1)
+        par = nontrivia(toks, idx)
+        par_close = match_close(toks, par)
+        after = nontrivia(toks, par_close)
+        tail = (after == end)
+        stmt_end = None
+        if not tail:
+            # statement form: `)?;`
+            if toks[after][1] == '?' and toks[nontrivia(toks, after)][1] == ';':
+                stmt_end = nontrivia(toks, after)
+            else:
+                raise Undecided('R4: .modify(..) is neither in tail position nor a `..?;` statement')
+        # receiver: tokens back from dot to statement start (previous ';' or '{' or '}' at depth 0)
+        r = dot - 1
+        depth = 0
+        while r > 0:
+            k, t = toks[r][0], toks[r][1]
+            if k == 'p' and t == '}' and depth == 0:
                 break
-            depth -= 1
-        elif k == 'p' and t == ';' and depth == 0:
-            break
-        r -= 1
-    recv = join(toks[r + 1:dot]).strip()
-    # closure: |tables| BODY
-    c = nontrivia(toks, par)
-    if toks[c][1] != '|':
-        raise Undecided('R4: modify argument is not a closure')
-    c2 = c + 1
-    while toks[c2][1] != '|':
-        c2 += 1
-    param = join(toks[c + 1:c2]).strip()
-    if not re.match(r'^[a-z_]+$', param):
-        raise Undecided('R4: closure parameter is not a plain identifier: %r' % param)
-    b = nontrivia(toks, c2)
-    last = nontrivia(toks, par_close, -1)
-    if toks[last][1] == ',':
-        last = nontrivia(toks, last, -1)
-    inner = join(toks[b:last + 1])
-    head = join(toks[:r + 1])
-    lead = head[len(head.rstrip()):] if head.rstrip() != head else '\n        '
-    new = head.rstrip() + lead + '{ %s.%s_begin()?;\n        let %s = %s.tables_mut();\n        let __r = %s;\n        __r }\n    }' % (recv, meth, param, recv, inner.strip())
-    # note: `let __r = { BODY }; __r` keeps BODY's tail expression a tail expression of a block
-    log.append({'rule': 'R4', 'replaced': '%s.%s(|%s| ..)' % (recv, meth, param), 'with': '%s.%s_begin()?; let %s = %s.tables_mut(); ..' % (recv, meth, param, recv)})
-    return new
+            if k == 'p' and t in CLOSE:
+                depth += 1
+            elif k == 'p' and t in OPEN:
+                if depth == 0:
+                    break
+                depth -= 1
+            elif k == 'p' and t == ';' and depth == 0:
+                break
+            r -= 1
+        recv = join(toks[r + 1:dot]).strip()
+        c = nontrivia(toks, par)
+        if toks[c][1] != '|':
+            raise Undecided('R4: modify argument is not a closure')
+        c2 = c + 1
+        while toks[c2][1] != '|':
+            c2 += 1
+        param = join(toks[c + 1:c2]).strip()
+        if not re.match(r'^[a-z_]+$', param):
+            raise Undecided('R4: closure parameter is not a plain identifier: %r' % param)
+        bb = nontrivia(toks, c2)
+        last = nontrivia(toks, par_close, -1)
+        if toks[last][1] == ',':
+            last = nontrivia(toks, last, -1)
+        inner = join(toks[bb:last + 1])
+        head = join(toks[:r + 1])
+        lead = head[len(head.rstrip()):] if head.rstrip() != head else '\n        '
+        if tail:
+            body = head.rstrip() + lead + '{ %s.%s_begin()?;\n        let %s = %s.tables_mut();\n        let __r = %s;\n        __r }\n    }' % (recv, meth, param, recv, inner.strip())
+            # note: `let __r = { BODY }; __r` keeps BODY's tail expression a tail expression of a block
+        else:
+            rest = join(toks[stmt_end + 1:])
+            body = head.rstrip() + lead + '{ %s.%s_begin()?;\n        let %s = %s.tables_mut();\n        let __r%d: Result<()> = %s;\n        __r%d?; }' % (recv, meth, param, recv, done, inner.strip(), done) + rest
+        log.append({'rule': 'R4', 'replaced': '%s.%s(|%s| ..)%s' % (recv, meth, param, '' if tail else '?;'), 'with': '%s.%s_begin()?; let %s = %s.tables_mut(); ..' % (recv, meth, param, recv), 'position': 'tail' if tail else 'statement'})
+        done += 1
+        # protect the rewritten call from being found again: the method name no longer appears as `.modify(`
+    raise Undecided('R4: too many .modify( calls')
 
 
 LOOP_KW = ('while', 'for', 'loop')
